@@ -9,3 +9,6 @@ var Registry = map[string]PropFunc{}
 
 // NeedsWhole: properties whose thorough tier uses whole-program syntax.
 var NeedsWhole = map[string]bool{}
+
+// AlwaysWhole: properties whose rules need dependency function bodies in both tiers.
+var AlwaysWhole = map[string]bool{}
